@@ -84,12 +84,12 @@ Definition end_verse_line := w (R " \\" ++ NLs).
 Definition format_paragraph (s : st) (t : str) : str := t.
 (* os.Stat(image) succeeds: the harness creates the image files the documents name *)
 Definition figure_image (image caption link alt : str) (s : st) : st :=
-  if contains_any [123; 125; 92] image || contains_any [123; 125] caption then err "path argument and caption should not contain braces" s else
+  if contains_any tex_name_bad_chars image || contains_any brace_chars caption then err "path argument and caption should not contain braces" s else
   if negb (existsb (str_eqb image) (existing s)) then err "image not found" s else
   w (R "\begin{center}" ++ NLs ++ R "\begin{figure}[htbp]" ++ NLs ++ R "\includegraphics{" ++ latex_percent image ++ R "}" ++ NLs ++
      R "\caption{" ++ caption ++ R "}" ++ NLs ++ R "\label{fig:" ++ dec (fig s) ++ R "}" ++ NLs ++ R "\end{figure}" ++ NLs ++ R "\end{center}" ++ NLs) s.
 Definition inline_image (image link id punct alt : str) (s : st) : st :=
-  if contains_any [123; 125; 92] image then err "path argument should not contain braces" s else
+  if contains_any tex_name_bad_chars image then err "path argument should not contain braces" s else
   if negb (existsb (str_eqb image) (existing s)) then err "image not found" s else
   w (R "\includegraphics{" ++ latex_percent image ++ R "}" ++ punct ++ target id) s.
 Definition lk_with_label (uri label punct : str) : st -> st :=
